@@ -137,6 +137,66 @@ func c17LeastTime(n, ncalls int) func(x *X) {
 	}
 }
 
+// more targets than a binary heap has levels to hide mistakes in: the fastest target sits deep in the heap
+func c17LeastTimeMany(n int) func(x *X) {
+	return func(x *X) {
+		addrs := []string{"a", "b", "c", "d", "e", "f"}[:n]
+		s := newCliSys(x, rpc.LeastTimeScheduling, addrs...)
+		s.c.Alpha = []float64{0.8, 0}[x.Choose(2)]
+		s.c.Tick = 100 * time.Millisecond
+		fast := x.Choose(n)
+		mid := x.Choose(n)
+		for i, a := range addrs {
+			s.rt.up[a] = true
+			s.rt.lat[a] = 30 * time.Millisecond
+			if i == mid {
+				s.rt.lat[a] = 10 * time.Millisecond
+			}
+			if i == fast {
+				s.rt.lat[a] = time.Millisecond
+			}
+		}
+		s.tick(2)
+		model := newLTModel(addrs, s.c.Alpha, s.c.Tick)
+		var trace []string
+		ncalls := 2*n + 3
+		for i := 0; i < ncalls; i++ {
+			if i < n {
+				vt.Advance(120 * time.Millisecond) // one probe per call: every target is measured once
+				vs.Quiesce()
+			} else if x.Choose(3) == 1 {
+				vt.Advance(30 * time.Millisecond)
+				vs.Quiesce()
+			}
+			now := vt.Elapsed()
+			probe, mins := model.allowed(now)
+			from := len(s.rt.routed)
+			err := s.c.Call("X.Y", nil, nil)
+			rs := s.rt.userRoutes(from)
+			if err != nil || len(rs) != 1 {
+				x.Fail("C17/call-failed", "call %d: err=%v routes=%d", i, err, len(rs))
+				break
+			}
+			got := rs[0].addr
+			dur := vt.Elapsed() - now
+			switch {
+			case probe != "" && got == probe:
+				model.probed(now)
+				trace = append(trace, got+"*")
+			case probe != "":
+				x.Fail("C17/leasttime-probe-skipped", "call %d at %v: a probe of %q was due but the call went to %q; calls so far %v", i, now, probe, got, trace)
+			case !member(mins, got):
+				x.Fail("C17/leasttime-not-minimal", "%d targets: call %d at %v went to %q (estimate %v) but the minimal estimate belongs to %v; estimates %v; calls so far %v", n, i, now, got, time.Duration(model.est[got]), mins, estString(model), trace)
+			default:
+				trace = append(trace, got)
+			}
+			model.observe(got, dur)
+		}
+		x.Outcome("n=%d fast=%d mid=%d %v", n, fast, mid, trace)
+		s.close()
+	}
+}
+
 func estString(m *ltModel) string {
 	out := ""
 	for _, a := range m.addrs {
@@ -259,5 +319,8 @@ func init() {
 	register(&Scenario{Prop: "C17", Name: "c17/leasttime-2x5", Quick: []Bound{{0, 0}}, Thorough: []Bound{{0, 0}}, Body: c17LeastTime(2, 5), MaxSteps: 100000})
 	register(&Scenario{Prop: "C17", Name: "c17/leasttime-3x5", Quick: []Bound{{0, 0}}, Thorough: []Bound{{0, 0}}, Body: c17LeastTime(3, 5), MaxSteps: 100000})
 	register(&Scenario{Prop: "C17", Name: "c17/leasttime-3x7", Quick: []Bound{}, Thorough: []Bound{{0, 0}}, Body: c17LeastTime(3, 7), MaxSteps: 100000, BudgetT: 400})
+	register(&Scenario{Prop: "C17", Name: "c17/leasttime-4targets", Quick: []Bound{{0, 0}}, Thorough: []Bound{{0, 0}}, Body: c17LeastTimeMany(4), MaxSteps: 100000})
+	register(&Scenario{Prop: "C17", Name: "c17/leasttime-5targets", Quick: []Bound{{0, 0}}, Thorough: []Bound{{0, 0}}, Body: c17LeastTimeMany(5), MaxSteps: 100000})
+	register(&Scenario{Prop: "C17", Name: "c17/leasttime-6targets", Quick: []Bound{}, Thorough: []Bound{{0, 0}}, Body: c17LeastTimeMany(6), MaxSteps: 100000})
 	register(&Scenario{Prop: "C17", Name: "c17/unreachable", Quick: []Bound{{1, 0}}, Thorough: []Bound{{2, 0}}, Body: c17Unreachable, MaxSteps: 100000})
 }
